@@ -335,7 +335,10 @@ def check_program(res: Res, prog: dict) -> None:
         res.violate("program-rejected", f"valid .table/.text program rejected: {r.err_kind}: {r.err_text[:300]}", wit)
         return
     got = b"".join(b for _, b in r.blocks)
-    if len(r.blocks) > 1 or (r.blocks and r.blocks[0][0] != 0):
+    from vf.progcheck import _coalesce
+
+    joined = _coalesce(r.blocks)
+    if len(joined) > 1 or (joined and joined[0][0] != 0):
         res.violate("text-layout", f"unexpected blocks {[(hex(a), len(b)) for a, b in r.blocks]}", wit)
         return
     if got != exp:
